@@ -77,6 +77,11 @@ def run(ctx):
     actcheck.run_histories(ctx, n // 3, 60, actdiff.Svc(actgen.DEFAULT_FILES, pending=2), gen_kw={"max_conns": 4}, seed_salt=5,
                            label="pending-limit-2")
     # deadlines: the clock moves in steps of 450 s and 700 s against a start timeout of 1000 s
+    # a bus with a <servicehelper>: service files without User= are refused at once (Spawn.FileInvalid) - and that is all that ever
+    # happens for such a request: nothing stays pending, so no second error when the start timeout passes, nobody stalled
+    actcheck.run_histories(ctx, n // 3, 60, actdiff.Svc(actgen.DEFAULT_FILES, helper=True),
+                           gen_kw={"max_conns": 4, "weights": {"call": 30, "startsvc": 14, "actsleep": 8, "request": 10}}, seed_salt=9,
+                           label="servicehelper-without-user")
     slow = actdiff.Svc(SCRIPT_FILES, start_timeout=1000000)          # (with the two names that share one command line)
     actcheck.run_histories(ctx, 0, 0, slow, scripts=deadline_scripts(), label="deadline-scenarios")
     actcheck.run_histories(ctx, n // 2, 60, slow, gen_kw={"max_conns": 4, "weights": {"advance": 9, "actsleep": 0, "svcexit": 3, "call": 30, "startsvc": 12}},
